@@ -276,6 +276,7 @@ static void *big_map(size_t sz)
 //   fill:   fresh bytes (malloc, and the tail a growing realloc adds) hold 0x00 or 0xFF instead of 0xBE
 //   recycle: every block gets slack behind it (poisoned: touching it is still reported), a realloc that fits is done in
 //            place, and freed blocks are kept (poisoned) on a LIFO per size and handed out again at once
+static int g_force_alloc_mode = -1;         // regression replays: 0 plain, 1..4 = the four personalities
 static bool g_no_alloc_modes = false;      // harnesses whose oracle depends on the sanitizer's allocator (fibres) opt out
 static int g_alloc_fill = -1;              // -1: leave what the sanitizer put there
 static bool g_alloc_recycle = false;
@@ -646,6 +647,7 @@ static void run_case(const uint8_t *d, size_t n)
         // allocator personality of this case (a pure function of the case bytes, so a replay sees the same one)
         arena_flush();
         uint64_t hh = n ? fnv64(d, n) >> 12 : 0;
+        if (g_force_alloc_mode >= 0) hh = g_force_alloc_mode == 0 ? 0 : (uint64_t)(3 + g_force_alloc_mode);
         switch (hh & 7) {
         case 4: g_alloc_fill = 0x00; g_alloc_recycle = false; break;
         case 5: g_alloc_fill = 0xFF; g_alloc_recycle = false; break;
@@ -810,6 +812,12 @@ static int engine_replay(const char *path, bool quiet)
     g_trace = true;
     g_replay_mode = quiet ? 2 : 1;
     run_case(c.data(), c.size());
+    if (quiet && g_alloc_ordinal > 0) {
+        // regression seeds (quiet replays): a case that makes the library allocate is run under every allocator
+        // personality, not only the one its hash selects (a seed must keep failing whatever fresh memory contains)
+        for (int m = 0; m < 5; m++) { g_force_alloc_mode = m; run_case(c.data(), c.size()); }
+        g_force_alloc_mode = -1;
+    }
     if (!quiet) {
         printf("REPLAY-OK nontrivial=%d ops=%zu\n", (int)g_nontrivial, g_ops.size());
     }
